@@ -109,7 +109,7 @@ func checkC15(c *Ctx) {
 			c.Fatal("bad GenTop line")
 			return
 		}
-		if len(tf) == maxTops && every > 1 && (int64(i)+c.Seed)%int64(every) != 0 {
+		if len(tf) == maxTops && !sampled(i, c.Seed, every) {
 			continue
 		}
 		g := newFgen(r, fc)
